@@ -204,6 +204,16 @@ ROUND10 = {
 }
 
 
+ROUND11 = {
+    "C03": " Round 11: matrices and derivative re-read after every kind of simulation.",
+    "C06": " Round 11: rules that own parameters, six simulator settings.",
+    "C12": " Round 11: identifiers containing the clock's name.",
+    "C13": " Round 11: reactions flagged reversible, three ways of reading.",
+    "C17": " Round 11: copies of models whose stored values a session left behind.",
+    "C19": " Round 11: a division event with another splitter added after a run.",
+}
+
+
 def main():
     props = [json.loads(l) for l in open(os.path.join(HERE, "properties.jsonl"))]
     checks, na = [], []
@@ -211,7 +221,7 @@ def main():
         pid = p["id"]
         if pid in CLAIMED:
             c = dict(CLAIMED[pid])
-            c["text"] = c["text"] + ROUND4.get(pid, "") + ROUND5.get(pid, "") + ROUND6.get(pid, "") + ROUND8.get(pid, "") + ROUND9.get(pid, "") + ROUND10.get(pid, "")
+            c["text"] = c["text"] + ROUND4.get(pid, "") + ROUND5.get(pid, "") + ROUND6.get(pid, "") + ROUND8.get(pid, "") + ROUND9.get(pid, "") + ROUND10.get(pid, "") + ROUND11.get(pid, "")
             checks.append({
                 "property_id": pid,
                 "quick_cmd": "./check %s quick" % pid,
